@@ -77,7 +77,7 @@ impl Bound for String {
         "str".to_string()
     }
     fn min() -> Self {
-        "\u{00}".to_string()
+        String::new()
     }
     fn max() -> Self {
         "\u{10FFFF}".to_string()
